@@ -247,6 +247,17 @@ LOGGER = Stage(
     nontrivial=lambda e: e.get("ev") in ("Log", "Build"),
 )
 
+# packet.PDUStringer, the object behind every String() (outside the listed properties: tags X.stringer.*, drift only)
+STRINGER = Stage(
+    family="stringer",
+    reset_ev="Start",
+    mc={"quick": [("MC_Stringer.tla", "MC_Stringer.cfg", "pass"), ("MC_Stringer.tla", "MC_Stringer_neg.cfg", "fail")],
+        "thorough": [("MC_Stringer.tla", "MC_Stringer.cfg", "pass"), ("MC_Stringer.tla", "MC_Stringer_neg.cfg", "fail")]},
+    parts={"quick": [("", 1)], "thorough": [("", 4)]},
+    trace=("Trace_Stringer.tla", "Trace_Stringer.cfg"),
+    nontrivial=lambda e: e.get("ev") in ("W", "Str"),
+)
+
 CHECKS = {
     "C13": dict(
         stages=[CONC],
@@ -275,7 +286,7 @@ CHECKS = {
                      "taken under a lock: the recorded order is a possible order of the pool operations"],
     ),
     "C12": dict(
-        stages=[MEM],
+        stages=[MEM, STRINGER],
         technique="TLA+ ownership model (buffers with owners and content tokens, results, views) (Mem.tla): TLC exhaustive over "
                   "all short histories + TLC validation of recorded real histories with caller scribbling and snapshot comparison",
         level_text="TLC explores every history of <=6 (thorough 7) encode/decode/scribble/frame-view operations with 2 pooled "
